@@ -147,6 +147,16 @@ func genCase(t *rapid.T) Case {
 		members := make([]*ref.Type, nf)
 		for j := range fields {
 			fields[j] = fn.fresh(t, "field", true)
+			// now and then a field named like a Go keyword or predeclared name
+			// (legal in a signature and in the IDL; generated Go code renames it,
+			// the IDL round trip must not)
+			if rapid.IntRange(0, 7).Draw(t, "kwfield") == 0 {
+				k := rapid.SampledFrom(goKeywords).Draw(t, "fieldkw")
+				if !fn.used[k] {
+					fn.used[k] = true
+					fields[j] = k
+				}
+			}
 			members[j] = drawType(t, pool, 1)
 		}
 		pool = append(pool, ref.StructOf(name, fields, members))
